@@ -75,6 +75,66 @@ def _scan(seq, at_start, reach0, acc, star_passes, nodotdir, in_rep=False):
     return acc
 
 
+def k1_text(text, pathmode):
+    """K1: a `*` that stands where the parser is "after start" (first in its name / segment, or first in an alternative of a
+    group that stands there) swallows the stars that follow it - including the one that opens a `*(` group.  A `**(` anywhere
+    else in a pattern is read correctly, so it is not in the class."""
+    if isinstance(text, (list, tuple)):
+        return any(k1_text(t, pathmode) for t in text)
+    if isinstance(text, bytes):
+        text = text.decode('latin-1')
+    if not isinstance(text, str) or '*(' not in text:
+        return False
+    at_start = True
+    stack = []
+    i, n = 0, len(text)
+    while i < n:
+        c = text[i]
+        if c == '\\':
+            i += 2
+            at_start = False
+            continue
+        if c in '?*+@!' and text[i + 1:i + 2] == '(':
+            stack.append(at_start)
+            i += 2
+            continue
+        if c == '*':
+            if at_start:
+                # a leading star: the stars after it are swallowed - if the last of them was meant to open a group, that is K1
+                j = i
+                while j < n and text[j] == '*':
+                    j += 1
+                if j - i >= 2 and text[j:j + 1] == '(':
+                    return True
+                i = j
+                at_start = False
+                continue
+            at_start = False
+            i += 1
+            continue
+        if c == '|' and stack:
+            at_start = stack[-1]
+            i += 1
+            continue
+        if c == ')' and stack:
+            stack.pop()
+            at_start = False
+            i += 1
+            continue
+        if c == '/' and pathmode:
+            at_start = True
+            i += 1
+            continue
+        if c == '[':
+            j = text.find(']', i + 2)
+            i = (j + 1) if j > 0 else i + 1
+            at_start = False
+            continue
+        at_start = False
+        i += 1
+    return False
+
+
 def scan_segment(seq, star_passes=False, nodotdir=False):
     return _scan(seq, True, True, _Scan(), star_passes, nodotdir)
 
@@ -84,7 +144,7 @@ def seg_classes(seq, seg, dot, pathmode, nodotdir, impl_accepts, verdict, text=N
     out = set()
     special = pathmode and seg in ('.', '..')
     hidden = seg[:1] == '.'
-    if text is not None and '**(' in text:
+    if text is not None and k1_text(text, pathmode):
         out.add('K1')
     if impl_accepts and verdict == R.MUSTNOT and (special or (hidden and not dot)):
         acc = scan_segment(seq, star_passes=False, nodotdir=nodotdir)
@@ -112,7 +172,7 @@ def path_classes(pp, path, flags, impl_accepts, verdict, text):
     dot = flags.get('dot', False)
     nodotdir = flags.get('nodotdir', False)
     _ab, psegs, ptrail = R.split_path(path)
-    if '**(' in text:
+    if k1_text(text, True):
         out.add('K1')
     for s in pp.segs:
         if s in (A.GS, A.GSL):
